@@ -106,12 +106,25 @@ structure Mag where
   eps : Rat
   /-- the largest value `random.random()` returns -/
   top : Rat
+  /-- the smallest positive number of the format -/
+  tiny : Rat := 0
+  /-- `2^-k` is a number of the format for every `k ≤ kmax` -/
+  kmax : Nat := 0
+  /-- `math.exp(x)` is finite (no `OverflowError`) for every `x ≤ expmax` -/
+  expmax : Rat := 0
 
-/-- IEEE-754 binary64 as CPython uses it: `sys.float_info.max`, `float('1e-14')`, `1 - 2**-53` -/
+/-- IEEE-754 binary64 as CPython uses it: `sys.float_info.max`, `float('1e-14')`, `1 - 2**-53`, the smallest
+subnormal `2^-1074`, `math.exp(709.0) = 8.2e307` (and `math.exp(710.0)` raises) -/
 def binary64 : Mag where
   omega := ((2 ^ 53 - 1) * 2 ^ 971 : Nat)
   eps := mkRat 6338253001141147 (2 ^ 99)
   top := 1 - mkRat 1 (2 ^ 53)
+  tiny := mkRat 1 (2 ^ 1074)
+  kmax := 1074
+  expmax := 709
+
+/-- a rational lower bound of `ln 2 = 0.693147…` -/
+def ln2lo : Rat := 693 / 1000
 
 /-- a rounded arithmetic on `XF` -/
 structure Arith extends Mag where
@@ -121,6 +134,10 @@ structure Arith extends Mag where
   rnd : Rat → XF
   /-- C `pow` on the values of the format -/
   pow : XF → XF → XF
+  /-- C `exp` on the values of the format -/
+  exp : XF → XF := fun _ => nan
+  /-- C `sqrt` on the values of the format -/
+  sqrt : XF → XF := fun _ => nan
 
 namespace Arith
 variable (A : Arith)
@@ -173,6 +190,13 @@ def powPy (a b : XF) : XF :=
   | fin _, fin _, ninf => nan
   | _, _, r => r
 
+/-- Python `math.exp(a)`: C `exp`, except that an infinite result of a finite argument raises `OverflowError`
+(here `nan`); an underflow to `0.0` is returned silently -/
+def expPy (a : XF) : XF :=
+  match a, A.exp a with
+  | fin _, pinf => nan
+  | _, r => r
+
 /-- the laws: everything the theorems know about the arithmetic -/
 structure Lawful (A : Arith) : Prop where
   /-- (iii) rounding a finite exact result never gives `nan` -/
@@ -218,6 +242,20 @@ structure Lawful (A : Arith) : Prop where
   /-- (i) monotone in the exponent for a base `≥ 1` -/
   pow_mono_exp : ∀ a y y', XF.le (fin 1) a = true → XF.le y y' = true → XF.le (A.pow a y) (A.pow a y') = true
 
+/-- the laws of `exp` (used by the theorems on `mutESLogNormal` only).  `exp_ge_pow2` is the one quantitative law: the
+computed `exp(x)` is at least `2^-k` whenever `x ≥ -k * 0.693` (then `e^x ≥ 2^-k * e^(0.000147 k)`) and `2^-k` is a
+number of the format — true of every `exp` whose result is a monotone rounding of a value within an ulp of `e^x`.
+Nothing is said about arguments below `-kmax * 0.693`: there `exp` may underflow to `0`. -/
+structure LawfulExp (A : Arith) : Prop where
+  /-- the smallest positive number is representable and positive -/
+  rep_tiny : A.rep A.tiny = true
+  tiny_pos : 0 < A.tiny
+  /-- `exp` of a finite argument `≤ expmax` is a finite number (no `OverflowError`) -/
+  exp_fin : ∀ x, x ≤ A.expmax → ∃ e, A.exp (fin x) = fin e
+  /-- `exp(x) ≥ 2^-k` for `x ≥ -k * ln2lo`, `k ≤ kmax` -/
+  exp_ge_pow2 : ∀ (k : Nat) (x e : Rat), k ≤ A.kmax → -(k : Rat) * ln2lo ≤ x → A.exp (fin x) = fin e →
+    1 / 2 ^ k ≤ e
+
 end Arith
 
 /-- a value of `XF` carrying the arithmetic `A` in its type, so that the `RealLike` operations are those of `A` -/
@@ -234,8 +272,8 @@ instance (A : Arith) : RealLike (XFA A) where
   le a b := XF.le a.val b.val = true
   ofNat n := ⟨fin (n : Rat)⟩
   ofRatio n d := ⟨A.rnd ((n : Rat) / (d : Rat))⟩
-  sqrt _ := ⟨nan⟩
-  exp _ := ⟨nan⟩
+  sqrt a := ⟨A.sqrt a.val⟩
+  exp a := ⟨A.expPy a.val⟩
   log _ := ⟨nan⟩
   sin _ := ⟨nan⟩
   cos _ := ⟨nan⟩
@@ -291,6 +329,28 @@ def polyWhy (M : Mag) (eta x xl xu rand : Rat) : String :=
   else if ¬ (M.eps ≤ xu - xl) then "narrow"
   else if ¬ (xu - xl ≤ M.omega) then "width"
   else if ¬ (0 ≤ rand ∧ rand < 1) then "rand"
+  else "ok"
+
+/-! ### `mutESLogNormal`: the magnitude hypothesis of the positivity theorem -/
+
+/-- One mutated locus of `mutESLogNormal` (:240): strategy `s`, the exponent argument `a = t0_n + t * gauss` as the
+code computed it, and a witness `k`: `s > 0`, `a ≤ expmax` (no `OverflowError`), `k ≤ kmax` with `-k * 0.693 ≤ a`
+(so `exp(a) ≥ 2^-k`, no underflow of `exp` to `0`) and `s * 2^-k` at least the smallest positive number (no
+underflow of the product to `0`). -/
+def lognMag (M : Mag) (s a : Rat) (k : Nat) : Bool :=
+  decide (0 < s) && decide (a ≤ M.expmax) && decide (k ≤ M.kmax) && decide (-(k : Rat) * ln2lo ≤ a) &&
+  decide (M.tiny ≤ s / 2 ^ k)
+
+/-- the smallest `k` with `-k * ln2lo ≤ a` -/
+def lognK (a : Rat) : Nat := (Rat.ceil (-a / ln2lo)).toNat
+
+/-- which clause of `lognMag M s a (lognK a)` fails first (`ok` when none does) -/
+def lognWhy (M : Mag) (s a : Rat) : String :=
+  if ¬ 0 < s then "strategy"
+  else if ¬ a ≤ M.expmax then "overflow"
+  else if ¬ lognK a ≤ M.kmax then "expunderflow"
+  else if ¬ -(lognK a : Rat) * ln2lo ≤ a then "k"
+  else if ¬ M.tiny ≤ s / 2 ^ lognK a then "underflow"
   else "ok"
 
 end RoundedOps
